@@ -47,19 +47,27 @@ def run_group_models(ctx, n, pid='C14'):
 def run(ctx):
     ctx.rule = 'MC: all histories to depth 5 (thorough 6); RP/TV: TLC-simulated behaviours of depth 8 (10) replayed on real objects (non-trivial = contains a Fit and an Edit / Recompute / Call)'
     ctx.assumptions = ['an analysis is abstracted to its effective-parameter vector in the model; in the replay equality of analyses is equality of table fingerprints over float limbs']
+    import group_rp
     if ctx.quick:
         sc.run_mc(ctx, 'C14', 5)
         sc.run_rp(ctx, PREFIXES, 160, 8)
         run_group_models(ctx, 2)
+        group_rp.run_mc(ctx, 'C14', 6)
+        group_rp.run_rp(ctx, PREFIXES, 36, 8)
     else:
         sc.run_mc(ctx, 'C14', 6)
         sc.run_rp(ctx, PREFIXES, 2500, 10)
         run_group_models(ctx, 4)
+        group_rp.run_mc(ctx, 'C14', 8)
+        group_rp.run_rp(ctx, PREFIXES, 400, 10)
 
 
 def replay(ctx, case):
     c = case.get('case') or {}
     if c.get('kind') == 'session':
         sc.replay_one(ctx, c['behaviour'], PREFIXES)
+    elif c.get('kind') == 'group_session':
+        import group_rp
+        group_rp.replay_one(ctx, c['behaviour'], PREFIXES)
     else:
         sc.run_rp(ctx, PREFIXES, 40, 8)
